@@ -29,6 +29,8 @@ def rand_poly(rng, shape=None, names=None, maxterms=3, maxexp=3, dtype="int64", 
     rows = sorted(rows)
     if force_const_row and tuple([0] * D) not in rows:
         rows = [tuple([0] * D)] + rows
+    if rng.random() < 0.35:
+        rng.shuffle(rows)          # storage order of the terms is arbitrary: constructors keep the given order
     if pool is None:
         pool = FLOAT_COEFFS if dtype.startswith("float") else INT_COEFFS
     coeffs = [nested(rng, tuple(shape), pool) for _ in rows]
